@@ -58,7 +58,8 @@ def run_engine(harnesses, tags, tier, conf, extra=()):
     jobs = int(os.environ.get("VERIF_JOBS", "16"))
     cmd = [GOSYM, "run", "-repo", REPO, "-harness-dir", HARNESS_DIR, "-tags", tags,
            "-harness", ",".join(harnesses), "-j", str(jobs), "-out", out.name,
-           "-timeout-ms", str(conf.get("timeout_ms", 60000 if tier == "quick" else 300000)),
+           "-timeout-ms", str(conf.get("timeout_ms", 30000 if tier == "quick" else 300000)),
+           "-max-wall", str(conf.get("max_wall", "600s" if tier == "quick" else "5h")),
            "-max-paths", str(conf.get("max_paths", 400000)),
            "-max-enum", str(conf.get("max_enum", 300)),
            "-unwind", str(conf.get("unwind", 600))] + list(extra)
